@@ -55,7 +55,9 @@ impl Body for ScriptBody {
     type Data = Bytes;
     type Error = Status;
     fn poll_frame(mut self: Pin<&mut Self>, cx: &mut Context<'_>) -> Poll<Option<Result<Frame<Bytes>, Status>>> {
-        if self.ended { self.polls_after_end.fetch_add(1, Ordering::SeqCst); return Poll::Ready(None); }
+        // not fused either: a body polled again after it has ended reports that as an error frame (once)
+        if self.ended { let n = self.polls_after_end.fetch_add(1, Ordering::SeqCst);
+            return if n == 0 { Poll::Ready(Some(Err(Status::data_loss("http body polled after it had ended")))) } else { Poll::Ready(None) }; }
         match self.items.pop_front() {
             None => { self.ended = true; Poll::Ready(None) }
             Some(BItem::Pend) => { cx.waker().wake_by_ref(); Poll::Pending }
